@@ -584,6 +584,16 @@ func (c *Ctx) squareCase(sc sqCase) {
 	}
 	offT, offP := 0, 0
 	for i := -1; i <= len(b1.kept); i++ {
+		if len(b1.kept) > 400 && i > 3 && i < len(b1.kept)-3 && i%(len(b1.kept)/60) != 0 {
+			// very long lists: every range query rebuilds the builder, sample the indexes
+			sz := keptSizes[i] + uvarintLen(keptSizes[i])
+			if i < nKeptNormal {
+				offT += sz
+			} else {
+				offP += sz
+			}
+			continue
+		}
 		r, err := safeTxRange(b1.kept, i, sc.max, sc.thr)
 		c.emit(fmt.Sprintf("sq txrange %d %d %d %s", sc.max, sc.thr, i, kl), rangeOutBare(r, err))
 		c.oracle()
@@ -749,9 +759,26 @@ func streamBuilder(c *Ctx) {
 	c.hugeTxCases()
 	c.hugeBlobCases()
 	c.manySequencesCase()
+	c.manyTxsCase()
 	if c.thorough {
 		c.exhaustiveSmallScope()
 	}
+}
+
+// manyTxsCase: more than 16384 ordinary transactions in one square (20000 twenty-byte transactions, 64 x 64).
+// Go-side oracles only in the quick tier.
+func (c *Ctx) manyTxsCase() {
+	sc := sqCase{max: 64, thr: 64}
+	for i := 0; i < 20000; i++ {
+		t := c.rng.Bytes(20)
+		t[0] = 0xff // never a protobuf blob tx
+		sc.txs = append(sc.txs, genTx{raw: t})
+	}
+	sc.desc = "max=64 thr=64 20000 x t20"
+	c.goOnly = !c.thorough
+	c.squareCase(sc)
+	c.goOnly = false
+	c.dist("many-txs")
 }
 
 // manySequencesCase: a 64 x 64 square holding more than a thousand sequences (36 blob transactions of 30
